@@ -161,12 +161,50 @@ SHORT = {
  "C19-h": ("recover() in GroupSpec.ValidateBasic assigns to a local err", "quantity outside uint64"),
  "C20-g": ("fetch in-flight marker not cleared when the query fails", "one failed deployment query, then a submission or shutdown"),
  "C20-h": ("leases found at start-up are parked; a lease closed while parked is still handed over", "restart holding a lease, lease closed, then a submission"),
+ "C01-i": ("per-block cache of an account's open payments not dropped on withdraw: paid twice at a same-block close", "withdraw-lease and close-deployment in one block"),
+ "C01-j": ("genesis iterators decode into one reused value: exported amounts alias the last record", "export with >=2 accounts or payments of different amounts"),
+ "C02-i": ("bulk payout grouped by payee on a range copy: only the first payment of a payee is sent", "one provider holds two leases of a deployment that is closed or overdrawn"),
+ "C02-j": ("in-memory 'already settled this block' flag survives a reverted transaction", "a reverted settle, then a per-lease close in the same block"),
+ "C03-i": ("paymentWithdraw fast path no longer saves a zero-balance payment", "close in the block of the payment's last payout or creation"),
+ "C03-j": ("payments decoded into one reused value: amounts alias the last payment record of the account", ">=2 payment records on one account, one diverges, then a settlement"),
+ "C04-i": ("Sscanf targets passed as oseq, gseq: the payment hook closes the lease of the swapped group", "leases 2/1 and 1/2 of one provider, the latter closed"),
+ "C04-j": ("overdrawn account no longer winds down groups without a payment", "two groups, one leased (drains), one with an open order, overdraft"),
+ "C05-i": ("OnGroupClosed finds 'the group's lease' by a first-match prefix scan (oldest, already closed)", "group re-let once, then closed / deployment closed / overdraft"),
+ "C05-j": ("hooks moved out of doAccountSettle; the overdraft found inside AccountClose fires none", "close-deployment is the first action after exhaustion"),
+ "C06-i": ("overdraft marks active leases by dseq only (empty owner = any owner)", "another tenant with the same dseq and an active lease"),
+ "C06-j": ("deployment store keys keep the low 32 bits of dseq", "dseq >= 2^32 equal to an existing dseq modulo 2^32"),
+ "C07-i": ("escrow keeper reuses a scratch slice shared with concurrent Simulate calls (data race)", "a query-side goroutine settling another account during DeliverTx - real threads inside the application, not under the simulator"),
+ "C07-j": ("auditor index map from a sync.Pool returned dirty on an early return", "refused all-of bid, then another provider's bid, garbage collection in between on one node"),
+ "C08-i": ("audit records decoded into one reused value: attributes of earlier auditors bleed into later ones", ">=2 auditors attest one provider, the named one only partly"),
+ "C08-j": ("registration only checked as a side effect of the attribute match, which is skipped for empty requirements", "unregistered bidder on an order without requirements"),
+ "C09-i": ("falls back to a remembered certificate record when the chain query fails", "handshake, revocation, then a handshake while the node is unreachable"),
+ "C09-j": ("x/cert ExportGenesis implemented, InitGenesis stores everything as valid", "export/import restart after a revocation; caught by the C17 round trip"),
+ "C10-i": ("version update given up after 1 s when the manager is busy", "update event while a validation waits >1 s for the hostname service"),
+ "C10-j": ("endpoint counts compared across the whole deployment", "a global expose moved to another group, hash recorded on chain"),
+ "C11-i": ("base network policy only written when this Deploy created the namespace", "first Deploy fails after creating the namespace, or policies switched on after a restart"),
+ "C11-j": ("commit-level guard lets levels in (0,1) through: requests above limits", "fractional commit level"),
+ "C12-i": ("deployment status matched to a reservation by group instead of by order", "late status of the previous order sequence while the next one is reserved"),
+ "C12-j": ("an outstanding reservation that no longer fits the refreshed inventory is skipped", "inventory shrinks between two reserves"),
+ "C13-i": ("close-bid only when a reservation exists", "restart with a recovered bid, handling ends before any reservation"),
+ "C13-j": ("recovered bid in state closed/lost ignored: second create-bid", "bid closed while the order stays open, then restart"),
+ "C14-i": ("teardown started on shutdown overwrites the channel of the deploy in flight", "deploy in flight, lease closes, provider shuts down"),
+ "C14-j": ("service subscribes to the bus after querying cluster and chain", "lease closes during start-up with an existing workload (start-up path not simulated)"),
+ "C15-i": ("bus shutdown stops and waits one subscriber at a time while ranging over the live map", "bus Close racing a subscriber's own Close"),
+ "C15-j": ("one decode batch shared by the transaction and the header goroutine of Publish", "a transaction result and a header result in flight at once"),
+ "C16-i": ("the feed drops repeated identical events within one result", "the same object makes the same transition twice in one transaction; caught by the C15 feed scenario"),
+ "C16-j": ("OnBidClosed returns before the event when the escrow close fails", "bank refuses a refund (no reachable chain history makes it fail)"),
+ "C17-i": ("revoked and expired certificates pruned when the owner registers another", "revoked certificate past NotAfter, then a create by the same owner"),
+ "C17-j": ("write-through lookup cache in the keeper survives rolled-back transactions", "create or revoke followed by a failing message in the same transaction, then an owner+serial query"),
+ "C19-i": ("&group of the range variable: only the last group is validated", "out-of-limit group that is not the last one"),
+ "C19-j": ("lower bound on group totals dropped: a group without resource units passes", "group with an empty resource list"),
+ "C20-i": ("submit request carried by value: the announced manifest aliases the last queued request", ">=2 submissions queued during the fetch, the last one rejected"),
+ "C20-j": ("watchdog signals completion to the service before ShutdownCompleted: deadlock with stop()", "submission while the watchdog's close-bid is in progress"),
 }
 
 def main():
     rows = []
     os.makedirs(DST, exist_ok=True)
-    for d in sorted(glob.glob(SRC + "/C*/[abcdefgh]")):
+    for d in sorted(glob.glob(SRC + "/C*/[abcdefghij]")):
         prop, var = d.split("/")[-2:]
         key = f"{prop}-{var}"
         res = os.path.join(d, "RESULT.txt")
